@@ -1497,3 +1497,144 @@ class C21:
 
 
 CHECKS['C21'] = C21
+
+
+# ================================================================================================
+# C25: concurrent senders get unique consecutive sequence numbers
+# ================================================================================================
+class C25:
+    id = 'C25'
+    level = 'exploration'
+    build = [('asan', 'fx'), ('tsan', 'fx')]
+    workers = 4
+    examples = 240
+    flavours = ('asan', 'tsan')
+    assumptions = ['real threads calling Session::send / Session::send_batch on one real session (threaded, pipelined and coroutine process model; the coroutine model is included because '
+                   'FIXWriter::write takes the same spin lock there) over the in-memory socket, which records every write under its own mutex',
+                   'schedules are sampled by the operating system scheduler (plus generated sched_yield calls), not enumerated: the harness does not own the lock schedule. The ThreadSanitizer build '
+                   'adds happens-before race detection for the interleavings that did run; reports whose stacks lie entirely inside the bundled FastFlow queue/allocator are suppressed '
+                   '(harness/tsan.supp) - the queue itself is C30\'s subject',
+                   'a data race report from ThreadSanitizer that involves fix8 frames outside ff:: fails the case (the executor exits with the report)',
+                   'messages are NewOrderSingle with unique ClOrdIDs; memory and file persister']
+    rule = ('Hypothesis draws the process model, the persister, 2-8 threads and for each thread a script of sends, batches of 2-5 and yields. All threads start together. Oracle: the numbers '
+            'on the wire are exactly next..next+n-1 in strictly increasing wire order, every ClOrdID appears exactly once, the number of accepted sends equals n, Persister::get(number) '
+            'returns the wire bytes of that number, and neither AddressSanitizer/UBSan nor ThreadSanitizer reports anything. Each workload runs in the ASan build; every second one also in the '
+            'TSan build. Non-trivial: >= 3 threads with >= 1 batch each.')
+
+    def __init__(self, tier):
+        self.tier = tier
+        if tier == 'thorough':
+            self.examples = 3000
+            self.workers = 16
+
+    def make_executor(self):
+        class Pair:
+            def __init__(s):
+                s.ex = {'asan': pbt.Executor(timeout=180.0), 'tsan': pbt.Executor(flavour='tsan', timeout=300.0)}
+                s.restarts = 0
+
+            def close(s):
+                for e in s.ex.values():
+                    e.close()
+        return Pair()
+
+    def strategy(self):
+        step = st.one_of(st.just('s'), st.integers(2, 5).map(lambda n: 'b%d' % n), st.integers(2, 5).map(lambda n: 'b%d' % n), st.just('y'))
+        script = st.lists(step, min_size=1, max_size=12)
+        return st.fixed_dictionaries({'pm': st.sampled_from(['thread', 'pipe', 'thread', 'pipe', 'coro']), 'persist': st.sampled_from(['mem', 'file']),
+                                      'scripts': st.one_of(st.lists(script, min_size=2, max_size=8), st.lists(script, min_size=3, max_size=8)), 'tsan': st.booleans(), 'start': st.sampled_from([0, 0, 7, 1000])})
+
+    def run(self, case, pair):
+        flavours = ['asan'] + (['tsan'] if case['tsan'] and 'tsan' in self.flavours else [])
+        info = None
+        for fl in flavours:
+            info = self.run_one(case, pair.ex[fl], fl)
+        return info
+
+    def run_one(self, case, ex, flavour):
+        schema = 'UTEST'; begin = sessref.BEGIN[schema]
+        sessref.wipe(ex)
+        sessref.set_clock(ex, T0)
+        S = Sess(ex, schema)
+        o = S.new('i', 'CLI', 'SRV', 30, case['persist'] + ':c25', '-', case['start'], 0, pm=case['pm'])
+        stream = o.out_raw
+        o = S.feed(inbound(begin, 'A', 'SRV', 'CLI', 1, ts(T0), [(98, 0), (108, 30)]))
+        stream += o.out_raw
+        import time
+        logon_no = case['start'] or 1
+        for i in range(4000):
+            # established, and the session's own Logon has left the (possibly pipelined) writer
+            if o.st == sessref.ST_CONTINUOUS and o.nss == logon_no + 1 and ('\x0135=A\x01' in stream):
+                break
+            if i > 50:
+                time.sleep(0.002)      # waiting for the reader/callback threads of the session under test; the budget is generous, the outcome does not depend on it
+            o = S.obs(); stream += o.out_raw
+        if o.st != sessref.ST_CONTINUOUS:
+            raise Violation('C25: setup: logon in %s model did not complete (state %s)' % (case['pm'], sessref.STATE_NAMES[o.st]))
+        first = o.nss
+        nid = 0
+        scripts, ids = [], []
+        for sc in case['scripts']:
+            toks = []
+            for stp in sc:
+                if stp == 'y':
+                    toks.append('y')
+                elif stp == 's':
+                    nid += 1; ids.append('ID%d' % nid); toks.append('s%d' % nid)
+                else:
+                    k = int(stp[1:]); mine = list(range(nid + 1, nid + 1 + k)); nid += k
+                    ids += ['ID%d' % i for i in mine]
+                    toks.append('b' + '+'.join(map(str, mine)))
+            scripts.append(toks)
+        if not ids:
+            return {}
+        o = S.conc(scripts)
+        accepted = o.ret
+        out = o.out_raw
+        msgs = sessref.split_stream(out, begin) if self.complete(out, begin) else []
+        nss = o.nss
+        for _ in range(2000):
+            # quiescence: everything is on the wire and the session has advanced its next number past the last message (which it does after storing it)
+            if len(msgs) >= len(ids) and nss >= first + len(ids):
+                break
+            if _ > 50:
+                time.sleep(0.005)
+            o2 = S.obs()
+            nss = o2.nss
+            out += o2.out_raw
+            msgs = sessref.split_stream(out, begin) if self.complete(out, begin) else msgs
+        desc = '%s build, %s model, %s persister, %d threads, scripts %s' % (flavour, case['pm'], case['persist'], len(scripts), scripts)
+        seqs = [m.seq for m in msgs]
+        if len(msgs) != len(ids):
+            raise Violation('C25: %d messages on the wire for %d sends\n %s\n numbers %s' % (len(msgs), len(ids), desc, seqs))
+        if seqs != list(range(first, first + len(ids))):
+            raise Violation('C25: wire numbers are not %d..%d in increasing order: %s\n %s' % (first, first + len(ids) - 1, seqs, desc))
+        wire_ids = [m.get(11) for m in msgs]
+        if sorted(wire_ids) != sorted(ids):
+            raise Violation('C25: ClOrdIDs on the wire differ from the ids sent: missing %s, extra/duplicate %s\n %s' % (
+                sorted(set(ids) - set(wire_ids)), sorted(w for w in wire_ids if wire_ids.count(w) > 1 or w not in ids), desc))
+        if accepted != len(ids):
+            raise Violation('C25: send/send_batch accepted %s messages, %d were sent\n %s' % (accepted, len(ids), desc))
+        for m in msgs:
+            r = S.get(m.seq).ret
+            if not r['ok'] or sessref.unhx(r['v']) != m.raw:
+                raise Violation('C25: stored copy under %d is not the transmitted message\n wire  : %r\n stored: %r\n %s' % (m.seq, m.raw[:200], sessref.unhx(r['v'])[:200] if r['ok'] else None, desc))
+        fin = S.delete()
+        nb = sum(1 for sc in scripts if any(t.startswith('b') for t in sc))
+        return {'nontrivial': len(scripts) >= 3 and nb == len(scripts), 'classes': ['pm:' + case['pm'], 'persist:' + case['persist'], 'build:' + flavour, 'threads:%d' % len(scripts)],
+                'key': [case, flavour], 'sample': {'model': case['pm'], 'persist': case['persist'], 'scripts': scripts, 'wire_ids_in_order': wire_ids[:40]}}
+
+    @staticmethod
+    def complete(out, begin):
+        """the accumulated bytes end on a message boundary (cheap test before the strict framer is used)"""
+        return out.endswith('\x01') and out[-7:-4] == '10='
+
+
+class C25quickdev(C25):
+    """development aid: ASan build only"""
+    build = [('asan', 'fx')]
+    flavours = ('asan',)
+
+
+CHECKS['C25'] = C25
+CHECKS['C25a'] = C25quickdev
